@@ -118,7 +118,22 @@ def validate(chk, path, cfg="TraceLdapConn.cfg", timeout=900):
     return n, read_diags(out), res
 
 
-def run_lane(pid, tier, mc, profiles, rule, selftests, assumptions=(), extra=None):
+def gen_script_traces(chk, gencfg, keep):
+    """S -> I: TLC (GenConn) enumerates every environment script of the given length in quiescent-step semantics; conn-run
+    executes a seeded sample of the distinct scripts against the real code and records the events."""
+    out = os.path.join(chk.dir, "gen-" + gencfg + ".out")
+    res = C.tlc("GenConn", gencfg, out, workers=6, timeout=1800)
+    chk.model("GenConn/" + gencfg, res)
+    p = os.path.join(chk.dir, "trace-scripts.ndjson")
+    r = os.path.join(chk.dir, "gen-scripts.json")
+    C.harness("conn-run", ["script", out, p, keep, r], timeout=1800)
+    os.remove(out)
+    rep = C.load(r)
+    rep["lane"] = "conn-script(%s, 1 in %d)" % (gencfg, keep)
+    return ("scripts", p, rep, 0)
+
+
+def run_lane(pid, tier, mc, profiles, rule, selftests, assumptions=(), extra=None, scripts=None):
     """mc: list of (name, module, cfg, timeout, workers); profiles: list of (profile, count)."""
     chk = C.Check(pid, "model_checking", tier)
     C.build_harness()
@@ -127,6 +142,11 @@ def run_lane(pid, tier, mc, profiles, rule, selftests, assumptions=(), extra=Non
         chk.model(name + "/" + cfg, res)
     first_seed = C.seed() * 100000 + 1
     traces = gen_traces(chk, profiles, first_seed)
+    if scripts:
+        traces.append(gen_script_traces(chk, scripts[0], scripts[1]))
+        chk.rule.append("S->I: every environment script of %s (TLC, quiescent-step semantics: start/next/finish/server message/"
+                        "orphan/tick/fault stimuli, a stimulus only when no internal step is enabled), a seeded 1-in-%d sample of the "
+                        "distinct scripts executed against the real code and validated like any other trace" % scripts)
     total_events = 0
     clean_first = True
     for tn, (prof, path, rep, seed0) in enumerate(traces):
